@@ -135,6 +135,62 @@ pub fn run(args: &[String]) -> i32 {
                     }
                 }
             }
+            "marginal" => {
+                // every position of a 200-gene genome separately (and of a 70-gene one for the
+                // forms whose randomness may be drawn in words)
+                let rate = u(&row["a"]) as f64 / u(&row["D"]) as f64;
+                let half = u(&row["a"]) * 2 == u(&row["D"]);
+                for len in [200usize, 70] {
+                    let mut targets: Vec<(String, Box<dyn FnMut(&mut SmallRng) -> Vec<bool>>)> = Vec::new();
+                    targets.push((format!("with_rate_bits/{len}"), Box::new(move |r| {
+                        let Ok(c) = WithRate::new(rate as f32).mutate(Bitstring { bits: vec![false; len] }, r);
+                        c.bits
+                    })));
+                    targets.push((format!("with_rate_vec/{len}"), Box::new(move |r| {
+                        let Ok(c) = WithRate::new(rate as f32).mutate(vec![false; len], r);
+                        c
+                    })));
+                    targets.push((format!("bitstring_random_with_probability/{len}"), Box::new(move |r| {
+                        Bitstring::random_with_probability(len, rate, r).bits
+                    })));
+                    if half {
+                        targets.push((format!("uniform_xo_bits_arr/{len}"), Box::new(move |r| {
+                            UniformXo.recombine([Bitstring { bits: vec![false; len] }, Bitstring { bits: vec![true; len] }], r).expect("len").bits
+                        })));
+                        targets.push((format!("uniform_xo_bits_tuple/{len}"), Box::new(move |r| {
+                            UniformXo.recombine((Bitstring { bits: vec![false; len] }, Bitstring { bits: vec![true; len] }), r).expect("len").bits
+                        })));
+                        targets.push((format!("uniform_xo_vec_arr/{len}"), Box::new(move |r| {
+                            UniformXo.recombine([vec![false; len], vec![true; len]], r).expect("len")
+                        })));
+                        targets.push((format!("uniform_xo_vec_tuple/{len}"), Box::new(move |r| {
+                            UniformXo.recombine((vec![false; len], vec![true; len]), r).expect("len")
+                        })));
+                        targets.push((format!("bitstring_random/{len}"), Box::new(move |r| Bitstring::random(len, r).bits)));
+                    }
+                    let m = (n / 2).max(1000);
+                    for (name, mut f) in targets {
+                        let mut ones = vec![0u64; len];
+                        let mut bad_len = 0u64;
+                        for _ in 0..m {
+                            let c = f(&mut rng);
+                            if c.len() != len {
+                                bad_len += 1;
+                                continue;
+                            }
+                            for (i, b) in c.iter().enumerate() {
+                                ones[i] += u64::from(*b);
+                            }
+                        }
+                        for (i, k) in ones.iter().enumerate() {
+                            let mut counts = BTreeMap::new();
+                            counts.insert(json!([1]).to_string(), *k);
+                            counts.insert(json!([0]).to_string(), m - bad_len - *k);
+                            tally(&mut out, ri, &format!("{name}@{i}"), m, counts, bad_len);
+                        }
+                    }
+                }
+            }
             "umad_empty" => {
                 let e = u(&row["a"]) as f64 / u(&row["D"]) as f64;
                 let other = if e > 0.5 { 0.25 } else { 0.75 }; // an addition rate that differs from the empty rate
